@@ -121,6 +121,53 @@ def reader_rules(ctx, rep, key, name):
     return {"entry": ENTRY, "ok": ok, "seq": ["cache.get(entry.log_id)", "chunks.get(entry.chunk_id)", "read_exact_at(chunk.f, size, off-start)", "decode", "Append?"]}
 
 
+SHARED_MUT_RX = r"\b(RwLock|Mutex|RefCell|Cell|UnsafeCell|OnceCell|OnceLock|Atomic\w+|Condvar|mpsc::\w+)\b"
+
+
+def r07_9(ctx, rep):
+    """R07.9: the snapshot handed out by dump_data is frozen: its type owns no shared-mutable handle through which the live store could change
+    what the snapshot later yields (type-structure walk over the crate's ADT field types)."""
+    rep.rule("R07.9", "the value returned by RaftLog::dump_data owns its data: walking its field types through every crate-local struct/enum finds "
+                      "no lock, cell, atomic or channel (a handle shared with the live store would let later evictions/writes change or "
+                      "break what the snapshot iterator yields)")
+    key = ctx.body_key(r"RaftLog::<T>::dump_data$")
+    b = ctx.facts.bodies[key]
+    ret = b.get("ret_ty", "")
+    adts = ctx.facts.adts
+    roots = [p for p in adts if re.search(r"(^|[^\w:])%s\b" % re.escape(p), ret) or ret.startswith(p)]
+    if not rep.expect("R07.9", "dump_data return type is a crate-local ADT", len(roots) >= 1, "return type %s" % ret):
+        return
+    seen, bad, n_fields = set(), [], 0
+    work = [(r, r.split("::")[-1]) for r in roots]
+    if re.search(SHARED_MUT_RX, ret):
+        bad.append(("<return type>", ret))
+    while work:
+        p, trail = work.pop()
+        if p in seen:
+            continue
+        seen.add(p)
+        for v in adts[p]["variants"]:
+            for f in v["fields"]:
+                n_fields += 1
+                ty = f["ty"]
+                here = "%s.%s" % (trail, f["name"])
+                m = re.search(SHARED_MUT_RX, ty)
+                if m:
+                    bad.append((here, ty))
+                for q in adts:
+                    if q not in seen and re.search(r"(^|[^\w:])%s\b" % re.escape(q), ty):
+                        work.append((q, here))
+    for here, ty in bad:
+        rep.violation("R07.9", "dump_data|shared-mutable:%s" % here, "snapshot field %s" % here,
+                      "the snapshot holds `%s`: state shared with the live store, so entries that were readable when the snapshot was taken can "
+                      "later be evicted/changed under it (a cache miss on an entry of the then-open chunk cannot be served from the snapshot's "
+                      "frozen chunk list)" % ty[:120], where="%s:%s" % (adts[roots[0]]["file"], adts[roots[0]]["line"]))
+    if not bad:
+        rep.ok("R07.9", "dump_data -> %s" % roots[0].split("::")[-1], "%d ADTs / %d fields walked, no shared-mutable handle" % (len(seen), n_fields),
+               where="%s:%s" % (adts[roots[0]]["file"], adts[roots[0]]["line"]))
+    rep.floor("R07.9", "fields walked", n_fields, 10)
+
+
 def run(ctx, rep):
     rep.rule("R07.1", "= R15.6: every eviction is preceded by `first key <= last_evictable`")
     rep.rule("R07.2", "in the worker the eviction boundary is written only when no older file is left unsynced (len<=1 established, no push since), "
@@ -333,6 +380,9 @@ def run(ctx, rep):
             rep.ok("R07.5", "sibling readers agree", "both follow: " + " -> ".join(r1["seq"]), nontrivial=True)
         else:
             rep.violation("R07.5", "readers-disagree", "read vs DumpRaftLogIter", "the two cache-miss readers do not follow the same template")
+
+    # ---------------- R07.9 -------------------------------------------------------------
+    r07_9(ctx, rep)
 
     # ---------------- R07.6 -------------------------------------------------------------
     shared_cones = [ctx.body_key(READ_CL), ctx.body_key(DUMP_NEXT), ctx.body_key(r"RaftLog::<T>::stat$"), ctx.body_key(r"RaftLog::<T>::dump_data$"), wk]
